@@ -284,6 +284,13 @@ fn pair(xs: &Spec, ys: &Spec, kind: &'static str, depth: usize) -> CheckResult {
   }
   if hx == hy {
     let (fx, fy) = (hash_fnv(&*x), hash_fnv(&*y));
+    if fx == fy && crate::props::common::k2_shape(xs, ys) && !crate::known::strict() {
+      // known finding K2: the two trees feed the hasher the same sequence (a ConcatSource does not mark
+      // where its child list ends); counted, not reported again
+      let mut info = CaseInfo::default().class(true, "pair in the shape of known finding K2 (same hash input by construction)");
+      info.excluded_known = true;
+      return Ok(info);
+    }
     if fx == fy {
       return Err(format!(
         "the trees differ observably ({kind}, depth {depth}) but hash identically with two unrelated hashers: an ingredient is missing from the hash"
